@@ -1,8 +1,13 @@
 import Driver.Bloom
 import Driver.Hexane
+import Driver.Recon
+import Driver.Ids
 import Driver.Serde
 import Driver.Sync
 import Driver.Crdt
+import Driver.CrdtRich
+import Driver.CrdtPatch
+import Driver.CrdtX
 /-
   amdriver: replays the `>` lines of a harness trace through the executable model and prints the
   model's `<` lines.  `#` lines are copied so the two streams stay aligned by case.
@@ -17,6 +22,8 @@ def dispatch (toks : List String) : List String :=
     match (cmd.splitOn ".").head? with
     | some "bloom" => Driver.Bloom.exec toks
     | some "hexane" => Driver.Hexane.exec toks
+    | some "recon" => Driver.Recon.exec toks
+    | some "ids" => Driver.Ids.exec toks
     | some "serde" => Driver.Serde.exec toks
     | some "sync" => Driver.Sync.exec toks
     | _ => ["unknown-engine"]
@@ -31,7 +38,11 @@ def step (st : DState) (toks : List String) : DState × List String :=
   | cmd :: _ =>
     match (cmd.splitOn ".").head? with
     | some "crdt" =>
-      let (c, out) := Driver.Crdt.exec st.crdt toks
+      let (c, out) :=
+        if cmd.startsWith "crdt.rt." then Driver.CrdtRich.exec st.crdt toks
+        else if cmd.startsWith "crdt.patch." then Driver.CrdtPatch.exec st.crdt toks
+        else if cmd.startsWith "crdt.x." then Driver.CrdtX.exec st.crdt toks
+        else Driver.Crdt.exec st.crdt toks
       ({ st with crdt := c }, out)
     | _ => (st, dispatch toks)
 
